@@ -38,7 +38,8 @@ fn main() {
                 _ => usage(),
             };
             util::install_panic_hook();
-            let ctx = Ctx::new(&args[2], tier, seed);
+            let mut ctx = Ctx::new(&args[2], tier, seed);
+            props::configure(&mut ctx);
             if !props::run(&ctx) {
                 eprintln!("unknown property {}", args[2]);
                 std::process::exit(2);
@@ -60,6 +61,7 @@ fn main() {
             };
             let mut ctx = Ctx::new(&p, Tier::Quick, seed);
             ctx.replay_mode = true;
+            props::configure(&mut ctx);
             match props::replay(&ctx, &sub, &case) {
                 Ok(()) => {}
                 Err(e) => {
